@@ -4,7 +4,7 @@ import copy
 import io
 
 from .. import coqbuild, edtie, irtools as T
-from ..common import GLOBAL_TRUSTED_BASE
+from ..common import CORPUS_SEED, GLOBAL_TRUSTED_BASE
 from ..model import call_many
 from ..pool import guarded, run_cases
 
@@ -78,7 +78,9 @@ def gen_ir(rng, style):
 
 
 def check_case(arg):
-    ir, style = arg
+    ir, style = arg[0], arg[1]
+    cid = arg[2] if len(arg) > 2 else None      # an entry of the fixed corpus: every configuration gets a stable key
+    keys = []
     items, n, clean = [], 0, 0
     for edd in (True, False):
         for etypes in (True, False):
@@ -88,11 +90,14 @@ def check_case(arg):
                            "parse_emit_default_doc": pedd}
                     # word_wrap and the parser's keep/strip flag are part of the detail, not of the class
                     tag = "%s/%s/%s" % (style, "prose" if edd else "noprose", "types" if etypes else "notypes")
+                    ckey = None if cid is None else "%s|%s|%d%d%d%d" % (cid, style, edd, etypes, ww, pedd)
+                    if ckey:
+                        keys.append(ckey)
                     n += 1
                     try:
                         out, src = T.hop("docstring", ir, cfg)
                     except Exception as e:  # noqa
-                        items.append(("C01/%s/raises%s" % (tag, "/" + type(e).__name__ if style == "rest" else ""), {"error": str(e)[:100]}))
+                        items.append(("C01/%s/raises%s" % (tag, "/" + type(e).__name__ if style == "rest" else ""), {"error": str(e)[:100], "corpus_key": ckey}))
                         continue
                     want = copy.deepcopy(ir)
                     if not edd:
@@ -124,8 +129,8 @@ def check_case(arg):
                             # ... and on whether the declared type is one of simple_types (only then the text is converted by type)
                             decl = ((ir["params"].get(det.get("param")) or {}) if cls.startswith("param/") else ((ir.get("returns") or {}).get("return_type") or {})).get("typ")
                             cls += "/simple-type" if decl in ("int", "float", "str", "bool", "complex") else "/other-type"
-                        items.append(("C01/%s/%s" % (tag, cls), dict(det, docstring=src[:300], word_wrap=ww, parser_keeps_announcer=pedd)))
-    return items, n, clean
+                        items.append(("C01/%s/%s" % (tag, cls), dict(det, docstring=src[:300], word_wrap=ww, parser_keeps_announcer=pedd, corpus_key=ckey)))
+    return items, n, clean, keys
 
 
 def sweep_case(arg):
@@ -233,7 +238,7 @@ def rest_impl(c):
 
 
 def worker(batch):
-    out = {"n": 0, "hops": 0, "clean": 0, "items": [], "corr": [], "sdd": 0, "rest": 0, "ed": 0, "ed_found": 0}
+    out = {"n": 0, "hops": 0, "clean": 0, "items": [], "corr": [], "sdd": 0, "rest": 0, "ed": 0, "ed_found": 0, "corpus_keys": []}
     sdds, eds = [], []
     rests = [p for k, p in batch if k == "rest"]
     if rests:
@@ -282,9 +287,10 @@ def worker(batch):
             if st != "ok":
                 out["items"].append(("C01/harness/" + st, {"detail": v}, payload[0]))
                 continue
-            items, n, clean = v
+            items, n, clean, keys = v
             out["hops"] += n
             out["clean"] += clean
+            out["corpus_keys"] += keys
             for cls, det in items:
                 out["items"].append((cls, det, payload[0]))
         elif kind == "sweep":
@@ -326,6 +332,20 @@ def worker(batch):
     return out
 
 
+def corpus_work(per_style):
+    """The fixed corpus: the same interfaces on every run, whatever VERIF_SEED is (entries recorded as clean in corpus/C01.json must stay
+    clean -- see Ctx.item).  The first entries of the thorough corpus are the quick one."""
+    import random
+    crng = random.Random(CORPUS_SEED)
+    out = []
+    for i in range(100):
+        for style in STYLES:
+            ir = gen_ir(crng, style)
+            if i < per_style:
+                out.append(("ir", (ir, style, "c%d" % i)))
+    return out
+
+
 def collect(ctx, n_ir, n_sdd):
     rng = ctx.rng
     work = []
@@ -349,6 +369,7 @@ def collect(ctx, n_ir, n_sdd):
                              "params": OrderedDict((("count", {"typ": "int", "doc": "the value"}),
                                                     ("sep", {"typ": "Optional[str]", "doc": "the separator", "default": '```("-" * 3).join("ab")```'}),
                                                     ("names", {"typ": "List[str]", "doc": "the names", "default": '```["b", "a"].copy()```'})))}, style)))
+    work += corpus_work(12 if n_ir < 200 else 100)
     work += [("sdd", sdd_case(rng)) for _ in range(n_sdd)]
     work += [("ed", (edtie.gen(rng), rng.random() < 0.5)) for _ in range(2 * n_sdd)]
     work += [("rest", rest_case(rng)) for _ in range(n_sdd)]
@@ -371,7 +392,7 @@ def collect(ctx, n_ir, n_sdd):
             dist["ir_styles"][payload[1]] = dist["ir_styles"].get(payload[1], 0) + 1
             k = str(len(payload[0].get("params") or {}))
             dist["ir_params"][k] = dist["ir_params"].get(k, 0) + 1
-    items, corr = [], []
+    items, corr, corpus_keys = [], [], []
     for r in run_cases(worker, [work[i:i + 8] for i in range(0, len(work), 8)], chunk=1):
         if "harness_error" in r:
             items.append(("C01/harness/error", {"detail": r}, None))
@@ -380,7 +401,9 @@ def collect(ctx, n_ir, n_sdd):
             agg[k] += r[k]
         items += r["items"]
         corr += r["corr"][:3]
+        corpus_keys += r.get("corpus_keys", [])
     agg["distribution"] = dist
+    agg["corpus_keys"] = corpus_keys
     return agg, items, corr, work
 
 
@@ -388,7 +411,8 @@ def run(ctx):
     status = coqbuild.prove("C01", THEOREMS)
     agg, items, corr, work = collect(ctx, 45 if ctx.quick else 1800, 400 if ctx.quick else 18000)
     for cls, det, ir in items:
-        ctx.item(cls, {"stage": "render as a docstring and parse it back", "clause": cls, "input": T.jsonable(ir) if ir else None, "detail": det})
+        ctx.item(cls, {"stage": "render as a docstring and parse it back", "clause": cls, "input": T.jsonable(ir) if ir else None, "detail": det},
+                 corpus_key=det.get("corpus_key") if isinstance(det, dict) else None)
     # style detection against Model/StyleDetect.v on token text of the three styles
     STY = SCAN_ALPHABET + ["Args:", "Kwargs:", "Raises:", "Returns:", "Parameters\n----------", "Returns\n-------", "Parameters", "----------", "Returns", "args:", "Args", "\n"]
     sty_texts = ["".join(ctx.rng.choice(STY) for _ in range(ctx.rng.randint(0, 8))) for _ in range(400 if ctx.quick else 10000)]
@@ -423,7 +447,7 @@ def run(ctx):
                 "set_default_doc/quote model; (doc, 1..5 parameters, return entry) of the ReST theorem's domain + random texts over a token alphabet "
                 "for the scanner transcription",
         "interfaces": agg["n"], "round_trips": agg["hops"], "round_trips_without_any_difference": agg["clean"],
-        "input_distribution": agg["distribution"],
+        "input_distribution": agg["distribution"], "corpus_configurations_run": len(agg["corpus_keys"]),
         "set_default_doc_cases": agg["sdd"], "rest_model_cases": agg["rest"], "model_disagreements": len(corr),
         "extract_default_cases": agg["ed"], "extract_default_cases_with_a_default_found": agg["ed_found"],
         "traces_validated_against_impl": agg["sdd"] + 4 * agg["rest"] + agg["ed"],
